@@ -57,6 +57,8 @@ type Send struct {
 	// schemabuilder.Paginated) with the connection arguments Conn next to the field's own arguments.
 	Paginated bool     `json:"paginated,omitempty"`
 	Conn      []LField `json:"conn,omitempty"`
+	// Sent: when present, the value this send carries (cases whose sends carry different values)
+	Sent *Val `json:"sent,omitempty"`
 }
 
 type Sel struct {
@@ -80,6 +82,9 @@ type Case struct {
 	// must fail), "accept" = a supported neighbour (fields that are skipped, accepted tag options, the default name)
 	Build string `json:"build,omitempty"`
 	What  string `json:"what,omitempty"` // build cases: the ingredient (histogram label)
+	// SharedVars: the sends are a history - operations parsed one after the other with ONE variables map (a client session
+	// or a batch of operations sharing a variables object); each must behave as if it were the only one
+	SharedVars bool `json:"shared_vars,omitempty"`
 }
 
 // ---- rendering the wire form into the transports ----
@@ -567,14 +572,16 @@ type Obs struct {
 	Result map[string]interface{} `json:"result,omitempty"`
 	// the same request through graphql.HTTPHandler (the repository's own Parse / PrepareQuery / Execute sequence)
 	// Selection.Args after PrepareQuery returned, before Execute (single-selection requests)
-	PrepSeen   bool   `json:"prep_seen,omitempty"`
-	Prep       *Val   `json:"prep,omitempty"`
-	PrepCalls  int32  `json:"prep_calls,omitempty"` // resolver calls counted at that moment (must be 0)
-	HTTPErr    string `json:"http_err,omitempty"`
-	HTTPDump   *Val   `json:"http_dump,omitempty"`
-	HTTPCallsF int32  `json:"http_calls_f"`
-	HTTPCallsG int32  `json:"http_calls_g"`
-	HTTPStatus string `json:"http_status,omitempty"` // ok | error | panic | timeout
+	PrepSeen  bool  `json:"prep_seen,omitempty"`
+	Prep      *Val  `json:"prep,omitempty"`
+	PrepCalls int32 `json:"prep_calls,omitempty"` // resolver calls counted at that moment (must be 0)
+	// VarsModified: graphql.Parse changed the caller's variables map (before -> after as JSON)
+	VarsModified string `json:"vars_modified,omitempty"`
+	HTTPErr      string `json:"http_err,omitempty"`
+	HTTPDump     *Val   `json:"http_dump,omitempty"`
+	HTTPCallsF   int32  `json:"http_calls_f"`
+	HTTPCallsG   int32  `json:"http_calls_g"`
+	HTTPStatus   string `json:"http_status,omitempty"` // ok | error | panic | timeout
 	// the same request over a JSON socket (graphql/server.go handleSubscribe or handleMutate)
 	WSKind   string `json:"ws_kind,omitempty"`   // subscribe | mutate
 	WSStatus string `json:"ws_status,omitempty"` // ok | error | panic | timeout
@@ -662,7 +669,10 @@ func isClient(err error) bool {
 }
 
 // exec follows graphql/http.go: Parse, PrepareQuery, then Execute.
-func (b *built) exec(s *Send) (o Obs) {
+func (b *built) exec(s *Send) (o Obs) { return b.execWith(s, nil) }
+
+// execWith: shared != nil is the caller's variables map, used as it is (and possibly used before by earlier operations)
+func (b *built) execWith(s *Send, shared map[string]interface{}) (o Obs) {
 	*b.callsF, *b.callsG = 0, 0
 	*b.got = reflect.Value{}
 	done := make(chan Obs, 1)
@@ -677,11 +687,19 @@ func (b *built) exec(s *Send) (o Obs) {
 		}()
 		// variables arrive through encoding/json, as in the HTTP and websocket handlers
 		var vars map[string]interface{}
-		if s.Vars != nil {
+		if shared != nil {
+			vars = shared
+		} else if s.Vars != nil {
 			raw, _ := json.Marshal(s.Vars)
 			json.Unmarshal(raw, &vars)
 		}
+		before := js(vars)
 		q, err := graphql.Parse(s.query(), vars)
+		modified := ""
+		if after := js(vars); after != before {
+			modified = before + " -> " + after
+		}
+		defer func() { o.VarsModified = modified }()
 		if err != nil {
 			o = Obs{Stage: "parse", Client: isClient(err), Err: err.Error()}
 			return
@@ -1166,6 +1184,11 @@ func genCase(r *vh.Rng) Case {
 	if fixedClass == "build" || (fixedClass == "" && r.Chance(9)) {
 		return genBuildCase(r)
 	}
+	if fixedClass == "shared-variables" || (fixedClass == "" && r.Chance(6)) {
+		if c, ok := genSharedVars(r); ok {
+			return c
+		}
+	}
 	if fixedClass == "" && r.Chance(12) {
 		return genLookAlike(r)
 	}
@@ -1373,9 +1396,22 @@ func main() {
 		}
 		var obs []Obs
 		var sendTerms, multiTerms, prepTerms []string
+		var sharedVars map[string]interface{}
+		if c.SharedVars && len(c.Sends) > 0 {
+			// one map for the whole history, decoded once (all sends of such a case carry the same variables)
+			raw, _ := json.Marshal(c.Sends[0].Vars)
+			json.Unmarshal(raw, &sharedVars)
+			if sharedVars == nil {
+				sharedVars = map[string]interface{}{}
+			}
+			run.Hist("shared-variables-history")
+		}
 		for k := range c.Sends {
 			s := &c.Sends[k]
-			ob := b.exec(s)
+			ob := b.execWith(s, sharedVars)
+			if ob.VarsModified != "" {
+				run.Fail(idx, "parse-modified-callers-variables", ob.VarsModified+" "+s.query(), c)
+			}
 			b.viaHTTP(s, &ob)
 			b.viaWS(s, (idx+k)%3 == 0, &ob)
 			obs = append(obs, ob)
@@ -1528,15 +1564,19 @@ func main() {
 					vh.CoqList(frags), vh.CoqList(body), mo, vh.CoqZ(int64(ob.CallsF))))
 				continue
 			}
+			want := c.Sent
+			if s.Sent != nil {
+				want = s.Sent
+			}
 			switch c.Expect {
 			case "echo":
 				if ob.Stage != "ok" {
 					if ob.Stage == "parse" || ob.Stage == "args" {
 						run.Fail(idx, "valid-value-rejected-"+s.Transport, ob.Err+" "+tag, c)
 					}
-				} else if !valEq(ob.Dump, c.Sent) {
+				} else if !valEq(ob.Dump, want) {
 					sig := "echo-differs-" + s.Transport
-					run.Fail(idx, sig, "got="+js(ob.Dump)+" sent="+js(c.Sent)+" "+tag, c)
+					run.Fail(idx, sig, "got="+js(ob.Dump)+" sent="+js(want)+" "+tag, c)
 				}
 			case "reject":
 				if ob.Stage == "ok" {
@@ -1585,7 +1625,7 @@ func main() {
 			}
 		}
 		// transports agree
-		if !c.NoEquiv && c.Class != "look-alike" {
+		if !c.NoEquiv && c.Class != "look-alike" && !c.SharedVars {
 			for k := 1; k < len(obs); k++ {
 				a, bb := obs[0], obs[k]
 				okA, okB := a.Stage == "ok", bb.Stage == "ok"
